@@ -393,6 +393,8 @@ def stream_public(ctx, consts, fmts, alive):
     for n, f in enumerate(fmts):
         ch = 1 if f.maxch < 2 or n % 3 else 2
         frames = rng.choice([1, 7, 64, 300]) if f.granular else rng.choice([1, 100, 700])
+        if f.granular and f.codec in (0x01, 0x05, 0x10, 0x11, 0x03) and ch == 1:
+            frames = rng.choice([1, 7, 63, 301])    # odd data length: a pad byte follows the audio (WAV, AIFF) — where sf_read_raw's clamp differed before d9097b4
         if f.codec == 0x20 and f.major in (0x01, 0x13):
             frames = rng.choice([640, 1280])        # WAV/GSM: an odd number of 65-byte blocks makes the pad byte an extra block (KF-WAV-GSM-PAD, C04/C11): what follows the file is then decoded
         if f.codec == 0x21:
@@ -571,6 +573,9 @@ def stream_api(ctx, consts, jobs, per_job=2):
                     k = rng.choice([1, 1, 2, frames, frames + 2, 5])      # sf_read_raw (0) returns before psf->error is reset: not modelled, not generated
                     nbytes = k * align if rng.random() < 0.85 else k * align + rng.randrange(1, max(2, align))
                     ops.append(("r", nbytes, 0))
+            # always end at the boundary: from the last frame, ask for three — with 1..blockwidth-1 bytes following the audio
+            # (pad byte after 24-bit mono, the first bytes of whatever follows an embedded file) the old clamp let them through
+            ops += [("s", max(frames - 1, 0), 0), ("r", 3 * align, 0)]
             text_ops = "".join("seek h1 %d %d\n" % (o[1], o[2]) if o[0] == "s" else "rraw h1 %d\n" % o[1] for o in ops)
             mops = ";".join("s:%d:%d" % (o[1], o[2]) if o[0] == "s" else "r:%d" % o[1] for o in ops)
             for r in ["vio", "path", "fd0", "fdemb:1:0", "fdemb:37:9"]:
